@@ -253,6 +253,39 @@ def rule_shaving_loop(ctx: Ctx, prog: Program) -> None:
             else:
                 ctx.violation("R-SHAVE", fn.path, fn.name, "probe-args", f"{fn.path}:{c.line}", f"shave_bound called with {[repr(x) for x in got]}")
     ctx.floor("R-SHAVE:iterations-after-shave", n, 1)
+    # ---- progress of the probing loop (its variant): an iteration that goes round again must have probed a bound.
+    # A probe either removes a value (finitely often) or, when it removes nothing, advances (domain cursor, bound) lexicographically.
+    n_round = 0
+    guard_names = [nm for nm in loop.assigned if isinstance(loop.pre_env.get(nm), (Aff, Dual))]
+    for bp in loop.paths:
+        if bp.outcome not in ("fall", "continue"):
+            continue
+        n_round += 1
+        s = bp.state
+        probes = calls_named(bp.events, "shave_bound")
+        if not probes:
+            ctx.violation("R-SHAVE", fn.path, fn.name, "round-without-probe", f"{fn.path}:{loop.node.lineno}",
+                          "the probing loop can go round again without having probed a bound: nothing has changed, so the same iteration "
+                          "repeats forever (an iteration must probe, return or leave the loop)")
+            continue
+        shaved_now = s.facts.decide(("ne0", _call_result(bp.events, probes[-1]))) if _call_result(bp.events, probes[-1]) is not None else None
+        if shaved_now is False:
+            moved = []
+            for nm in guard_names:
+                if nm == flag:
+                    continue
+                endv = it.scalar(s, s.env.get(nm))
+                lvn = Aff.atom(("lv", nm, loop.loop_id))
+                if not (endv == lvn):
+                    moved.append(nm)
+            if moved:
+                ctx.ok("R-SHAVE", "an unsuccessful probe advances the (domain cursor, bound) pair", sample={"moved": moved})
+            else:
+                ctx.violation("R-SHAVE", fn.path, fn.name, "no-advance-after-failed-probe", f"{fn.path}:{loop.node.lineno}",
+                              "after a probe that removed nothing neither the probed bound nor the domain cursor moves: the same probe repeats forever")
+        else:
+            ctx.ok("R-SHAVE", "a successful probe removed a value (finite domains bound the number of such iterations)", nontrivial=False)
+    ctx.floor("R-SHAVE:iterations-going-round", n_round, 2)
     for r in res:
         if r.outcome == "return":
             v = it.scalar(r.state, r.value)
